@@ -4,7 +4,7 @@ use simcore::{Components, Obs, Scenario, Tier};
 
 use crate::cfg::{Cfg, ProbeKind, Step};
 use crate::world::{Report, StepOutcome, World, N_POOLS};
-use crate::{c02, c03, c04, c05, c06, c07, c08, c10, c11, c12, c13, c14, gen};
+use crate::{c02, c03, c04, c05, c06, c07, c08, c09, c10, c11, c12, c13, c14, gen};
 
 pub struct MarketHistory {
     pub focus: &'static str,
@@ -185,6 +185,7 @@ impl Scenario for MarketHistory {
                     c12::after_step(&w, &out, obs);
                     c14::after_step(&w, &out, obs);
                     c11::after_step(&w, &out, obs);
+                    c09::after_step(&w, &out, obs);
                     if let Report::Decrease(r) = &out.report {
                         if r.insolvent_close_step().is_some() {
                             obs.probe("insolvent_close");
